@@ -463,4 +463,45 @@ def evolveN (cfg : Cfg) : (Wallet × NSrv) × BlockId → List Step → (Wallet 
   | s, [] => s
   | (p, tip), st :: rest => evolveN cfg (processN cfg p (ntfnsOf cfg.C tip st), stepTip tip st) rest
 
+/-! ### Rescans on a RUNNING wallet: backend reconnects and key imports
+
+`handleChainNotifications`, `case chain.ClientConnected`: every (re-)established backend connection runs
+`syncWithChain` again on the running wallet — the rollback loop, `recovery` when a recovery window is set, then a
+rescan from the synced-to block.  `chainClientSynced` is NOT touched on that path (only `RescanFinished` sets it, only
+a restart clears it): a wallet that was in sync keeps processing `BlockDisconnected` while the rescan is in flight.
+`ImportPrivateKey(…, rescan = true)` → `SubmitRescan` → `rescanBatchHandler` → `rescanRPCHandler` →
+`chainClient.Rescan` does not touch the wallet's chain state at all.  In both cases the handler is back in its loop as
+soon as the backend has accepted the rescan request; the `RelevantTx` notifications of the rescan, whatever block
+notifications arrive meanwhile, and finally `RescanFinished` are ordinary notifications (`handle`).
+
+(Seeded changes C02-4 / C15-5 call `SetChainSynced(false)` on these two paths; the model would then need
+`chainSynced := false` below, and `disconnectBlock` drops every disconnect until `RescanFinished`.) -/
+
+/-- `syncWithChain` on a wallet whose birthday block is set, against a backend with best chain `tip`, up to and
+    including the `RelevantTx` notifications of its rescan; `chainSynced` as it is.  `false` ⇒ `syncWithChain` returned
+    an error (the handler stays in `waitForSync`, retrying). -/
+def resync (cfg : Cfg) (recW batch : Nat) (w : Wallet) (tip : BlockId) : Wallet × Bool :=
+  match startupRollback cfg w tip with
+  | .error _ => (w, false)
+  | .ok w1 =>
+    let (w2, ok) := if recW > 0 then recoveryRun cfg batch tip (tip.length + 1) w1 else (w1, true)
+    if ok = false then (w2, false)
+    else (process cfg w2 (rescanTxNtfns cfg.C tip w2.syncedTo.height), true)
+
+/-- A rescan in flight on a running wallet: the notifications `pre` are processed before the backend reports the rescan
+    finished, `post` afterwards.  `atCall` is the backend's best chain when the rescan was requested (`RescanFinished`
+    reports its tip), `now` the backend's best chain when the wallet processes `RescanFinished` (`catchUpHashes` asks
+    the backend for the hashes). -/
+def rescanInFlight (cfg : Cfg) (w : Wallet) (atCall now : BlockId) (pre post : List Ntfn) : Wallet :=
+  process cfg w (pre ++ [.rescanFinished now atCall.length] ++ post)
+
+/-- `resync` with the notification server of the running wallet (it keeps its `currentTxNtfn`). -/
+def resyncN (cfg : Cfg) (recW batch : Nat) (p : Wallet × NSrv) (tip : BlockId) : (Wallet × NSrv) × Bool :=
+  match startupRollback cfg p.1 tip with
+  | .error _ => (p, false)
+  | .ok w1 =>
+    let (p2, ok) := if recW > 0 then recoveryRunN cfg batch tip (tip.length + 1) (w1, p.2) else ((w1, p.2), true)
+    if ok = false then (p2, false)
+    else (processN cfg p2 (rescanTxNtfns cfg.C tip p2.1.syncedTo.height), true)
+
 end SyncTip
